@@ -49,7 +49,7 @@ fn forms(v: &RefVal) -> Vec<(String, Vec<u8>, bool)> {
     let mut plain = vec![];
     assert!(w_id(&mut plain, v, IdStyle::Modern, None));
     out.push(("plain".to_string(), plain.clone(), false));
-    for hash in [0u64, u64::MAX, 0x0123_4567_89ab_cdef] {
+    for hash in [0u64, u64::MAX, 0x0123_4567_89ab_cdef, 0x7900_0000_0000_0001, 0x7979_7979_7979_7979] {
         for (st, ns) in [(IdStyle::Modern, None), (IdStyle::Modern, Some(AtomStyle::Utf8)), (IdStyle::Legacy, None), (IdStyle::Mid, None), (IdStyle::Modern, Some(AtomStyle::Latin1))] {
             let mut inner = vec![];
             if !w_id(&mut inner, v, st, ns) { continue; }
